@@ -199,7 +199,7 @@ def compare_groups(cases):
                     c.result.world.tag += " (equal after re-running to idle)"
     return cases
 
-EXTRA_MODULES = {"C01": ["TB.Props.C01bytes"], "C11": ["TB.Props.C01bytes"], "C02": ["TB.Props.C02run"], "C16": ["TB.Props.C16run"], "C04": ["TB.Props.C04a", "TB.Props.C04c"], "C15": ["TB.Props.C04a", "TB.Props.C04c"]}
+EXTRA_MODULES = {"C01": ["TB.Props.C01bytes"], "C11": ["TB.Props.C01bytes", "TB.Props.C04h"], "C02": ["TB.Props.C02run"], "C16": ["TB.Props.C16run"], "C04": ["TB.Props.C04a", "TB.Props.C04c", "TB.Props.C04h"], "C15": ["TB.Props.C04a", "TB.Props.C04c"]}
 
 PROPS = {
     "C01": dict(module="TB.Props.C01", theorems=["C01_write_sound", "C01_gate", "C01_writer_cursor", "C01_run"], clauses=["c01-"],
@@ -218,8 +218,10 @@ PROPS = {
                                     + [W.gen_world_c14(Rng(s, "c14", i)) for i in range(400 if t == "quick" else 8000)]),
     "C15": dict(module="TB.Props.C15", theorems=["C15_sum", "C15_run", "C15_dedup"], clauses=["c15-"], worlds=lambda t, s: worlds_default(t, s, "c15", 300, 6000, tweak_threads),
                 runner=lambda ws: run_with_cli(ws, 60 if len(ws) <= 1000 else 600), with_bin=True),
-    "C16": dict(module="TB.Props.C16", theorems=["C16_empty", "C16_validate", "C16_piece_total_partial"], clauses=["c16-", "c03-", "c12-"],
-                worlds=lambda t, s: [W.gen_world_c16(Rng(s, "c16", i), i) for i in range(400 if t == "quick" else 8000)],
+    "C16": dict(module="TB.Props.C16", theorems=["C16_empty", "C16_validate", "C16_piece_total_partial"], clauses=["c16-", "c03-"],
+                worlds=lambda t, s: [W.gen_world_short_match(Rng(s, "c16-short", i)) for i in range(6)]
+                                    + [W.gen_world_sparse_candidate(Rng(s, "c16-sparse", i)) for i in range(6)]
+                                    + [W.gen_world_c16(Rng(s, "c16", i), i) for i in range(400 if t == "quick" else 8000)],
                 runner=lambda ws: run_with_cli(ws, 66 if len(ws) <= 1000 else 660), with_bin=True),
     "C13": dict(module="TB.Props.C13", theorems=["C13_all_accounted", "C13_local", "C13_found_all_ok"], clauses=["c13-", "c01-", "c16-"], worlds=lambda t, s: fault_worlds(t, s) + partial_write_worlds(t, s, "c13-partial")),
     "C11": dict(module="TB.Props.C11", theorems=["C11_replay", "C11_prefix_sound"], clauses=["c11-", "c02-", "c01-"], worlds=crash_worlds, runner=run_crash_cases),
